@@ -1260,7 +1260,15 @@ def gen_deep_dict(classes, cname, rng, depth=0, keys=None):
     spec = classes[cname]
     if keys is None:
         keys = [k for k in candidate_keys(spec, rng, limit=6) if isinstance(k, str)]
-        keys = [k for k in keys if rng.random() < 0.65]
+        if rng.random() < 0.6:
+            # a mapping the class accepts: the first candidate of every field, nothing else
+            keys = []
+            for f in o_fields(spec):
+                k0 = o_candidates(spec, f)[0]
+                if k0 not in keys:
+                    keys.append(k0)
+        else:
+            keys = [k for k in keys if rng.random() < 0.65]
     rng.shuffle(keys)
     role = {}
     for f in o_fields(spec):
@@ -1363,7 +1371,11 @@ def deep_stream(ctx, rng, k4_ok):
         dfl = "[" + "; ".join(f"({coq_str(f['name'])}, {c_val(o_default(f))})" for c in classes.values() for f in o_fields(c)
                               if f["dflt"] is not None) + "]"
         okeys = [k for k in candidate_keys(spec, rng, limit=6) if isinstance(k, str)]
-        for ks in subsets(okeys, rng, ctx.budget(20, 64)):
+        prim = []
+        for f in o_fields(spec):
+            if o_candidates(spec, f)[0] not in prim:
+                prim.append(o_candidates(spec, f)[0])
+        for ks in [prim] * 6 + list(subsets(okeys, rng, ctx.budget(14, 58))):
             d = gen_deep_dict(classes, "K", rng, keys=list(ks))
             exp = o_deep(classes, "K", d)
             obs0 = None
